@@ -19,6 +19,9 @@ def showEnc : Option Bytes → String
 /-- ops: `enc t int`, `encb t 0|1`, `encf t bits`, `encs t cps`, `dec t hex`, `len t` -/
 def step (args : List String) : String :=
   match args with
+  | ["encl", t, v, _min, _max] => match parseType t, parseInt v with     -- declared limits are advisory
+    | some t, some v => showEnc (encodeRaw t (.int v))
+    | _, _ => "bad-op"
   | ["enc", t, v] => match parseType t, parseInt v with
     | some t, some v => showEnc (encodeRaw t (.int v))
     | _, _ => "bad-op"
